@@ -32,7 +32,7 @@ Lemma use_stack_size_pos : 0 < USE_STACK_SIZE.
 Proof. reflexivity. Qed.
 
 Record Inv (s : ustate) : Prop := {
-  inv_ptr : if u_term s then u_ptr s = -1 else 0 <= u_ptr s <= USE_STACK_SIZE;
+  inv_ptr : if u_term s then u_ptr s <= -1 else 0 <= u_ptr s <= USE_STACK_SIZE;
   inv_acc : forall i, In i (u_access s) -> 0 <= i < USE_STACK_SIZE;
   inv_nodup : NoDup (u_opened s);
   inv_tab : forall n, In n (u_opened s) -> In n (u_modtab s)
@@ -67,7 +67,8 @@ Qed.
 Lemma inv_step s e : Inv s -> Inv (use_step s e).
 Proof.
   intros [Hp Ha Hn Ht]. unfold use_step.
-  destruct (u_term s) eqn:Et; [constructor; rewrite ?Et; auto|].
+  destruct (u_term s) eqn:Et.
+  { destruct e as [n opens|]; constructor; cbn; rewrite ?Et; auto. lia. }
   destruct e as [n opens|].
   - destruct (use_guard (u_ptr s)) eqn:Eg; [constructor; cbn; auto|].
     destruct (mem_name n (u_modtab s)) eqn:Em; [constructor; rewrite ?Et; auto|].
@@ -88,12 +89,12 @@ Proof. induction evs as [|e evs IH]; intros s H; cbn; [exact H|]. apply IH. now 
 
 (* for EVERY sequence of `use` tokens (whatever the names, whether or not the files exist)
    and buffer ends, in any order: the counter stays within 0 .. MAX_USE_DEPTH until the
-   scanner terminates (it is -1 afterwards, by `--use_stack_ptr < 0`), every index used on
+   scanner terminates (it is negative afterwards, by `--use_stack_ptr < 0`), every index used on
    use_stack[] is inside the array, and no module is opened twice *)
 Theorem use_depth_bounded : forall evs,
   let s := use_run evs in
   (u_term s = false -> 0 <= u_ptr s <= MAX_USE_DEPTH) /\
-  (u_term s = true -> u_ptr s = -1) /\
+  (u_term s = true -> u_ptr s <= -1) /\
   (forall i, In i (u_access s) -> 0 <= i < USE_STACK_SIZE) /\
   NoDup (u_opened s).
 Proof.
